@@ -13,12 +13,14 @@ Composition of
 import VaxisModel.Props.C12
 import VaxisModel.Props.C07Caps
 import VaxisModel.Lemmas.C12Startup
+import VaxisModel.Lemmas.C12StartupLive
 
 namespace VaxisModel.Props.C12Startup
 open VaxisModel.Model.Input VaxisModel.Model.InputLoop VaxisModel.Model.Startup
 open VaxisModel.Model.C12Replies VaxisModel.Lemmas.C12Replies VaxisModel.Lemmas.C12Startup
 open VaxisModel.Spec.Startup
 open VaxisModel.Model.Emu (Emu)
+open VaxisModel.Lemmas.C12StartupLive
 
 /-- The first element with property `P` splits a list in one way only. -/
 theorem first_split_unique {α : Type} (P : α → Bool) :
@@ -137,6 +139,129 @@ theorem emu_dialogue_caps (hostBg : Option (Nat × Nat × Nat)) (e e' : Emu) (rs
   rw [hcaps]
   rfl
 
+/-! ### termination for every interleaving -/
+
+/-- Nothing but a time-out can happen any more: the goroutine cannot step, the probe cannot receive,
+    the loop cannot receive, `applyQuirks` is not next (and all replies have been delivered). -/
+def Quiescent (p : Params) (o : Opts) (st : St) : Prop :=
+  VaxisModel.Model.Startup.next p o st .step = none ∧ VaxisModel.Model.Startup.next p o st .clipTimeout = none ∧
+  VaxisModel.Model.Startup.next p o st .probeRecv = none ∧ VaxisModel.Model.Startup.next p o st .loopRecv = none ∧
+  VaxisModel.Model.Startup.next p o st .quirks = none
+
+/-- **The dialogue terminates, for every interleaving**: take any run of the start-up system in which
+    no time-out fires (neither the 50 ms of the probe nor the 3 s of the loop), whose inputs are the
+    emulator's replies — all of them delivered, in any interleaving with `New()` —, and which cannot be
+    continued without a time-out. Then `New()` is past `applyQuirks` (the run did not get stuck
+    waiting: the probe received its answer, the loop saw the DA1 notification), nothing was dropped,
+    and the capabilities are exactly those of `emu_dialogue_caps`. Needs a queue of at least 7 events
+    (the default is 1024), reply sends that do not block (`Kinds.safe`, the source since the F10 / F11
+    repairs) and a buffered `chCursorPos` (F12). -/
+theorem emu_dialogue_completes (hostBg : Option (Nat × Nat × Nat)) (e : Emu)
+    (p : Params) (hq : 7 ≤ p.qcap) (hk : VaxisModel.Lemmas.InputLoop.Kinds.safe p.kinds) (hcap : p.cursorCap ≠ 0)
+    (o : Opts) (henv : o.envUnset = true) (hct : o.colorterm = false)
+    (ls : List VaxisModel.Model.Startup.Label) (st : St) (hin : inputsOf ls = startupReplies hostBg e)
+    (hnt : ∀ l ∈ ls, isTimeout l = false)
+    (hrun : VaxisModel.Model.Startup.run p o (St.init o) ls = some st) (hquiet : Quiescent p o st) :
+    st.phase = .ready ∧ st.timedOut = false ∧ st.sys.dropped = 0 ∧
+    st.sys.vs.caps = { sixels := true, unicodeCore := true, osc11 := e.hasVx && hostBg.isSome } := by
+  have hI0 : LInv p (St.init o) (inputsOf ls ++ []) := by
+    rw [List.append_nil, hin]
+    refine ⟨?_, fun _ => Or.inl ⟨startupReplies_hasCPR hostBg e, rfl⟩, rfl, rfl⟩
+    have := startupReplies_budget hostBg e
+    simp only [St.init, hct, Bool.false_eq_true, if_false, List.length_nil, VaxisModel.Lemmas.InputEvents.posted]
+    omega
+  have hI := linv_run p o hcap ls (St.init o) st [] hI0
+    (by rw [hin]; exact startupReplies_good p.b64 hostBg e) hnt hrun
+  obtain ⟨q1, q2, q3, q4, q5⟩ := hquiet
+  obtain ⟨k1, k2, k3, k4, k5, k6⟩ := hk
+  -- the goroutine is back at its select
+  have hpend : st.sys.pend = [] := by
+    cases hp : st.sys.pend with
+    | nil => rfl
+    | cons ef rest =>
+      exfalso
+      have hb := hI.budget
+      have hstep : stepEffect p st.sys ef rest = none := by
+        simp only [VaxisModel.Model.Startup.next, liftSys, VaxisModel.Model.InputLoop.next, hp] at q1
+        cases hse : stepEffect p st.sys ef rest with
+        | none => rfl
+        | some x => rw [hse] at q1; simp at q1
+      cases ef with
+      | postB ev =>
+        rw [hp] at hb
+        simp only [VaxisModel.Lemmas.InputEvents.posted, List.length_cons] at hb
+        simp only [stepEffect] at hstep
+        split at hstep
+        · cases hstep
+        · omega
+      | postNB ev =>
+        simp only [stepEffect] at hstep
+        split at hstep <;> cases hstep
+      | sendCursorPos r c =>
+        obtain ⟨b, hb'⟩ := VaxisModel.Lemmas.InputLoop.send1_some p.kinds.cursorPos k1 st.sys.cursorCh.length
+        simp only [stepEffect, hcap, if_false, hb'] at hstep
+        cases b <;> cases hstep
+      | sendSizeDone =>
+        obtain ⟨b, hb'⟩ := VaxisModel.Lemmas.InputLoop.send1_some p.kinds.sizeDone k2 st.sys.sizeDone
+        simp only [stepEffect, hb'] at hstep
+        cases b <;> cases hstep
+      | sendColor v =>
+        obtain ⟨b, hb'⟩ := VaxisModel.Lemmas.InputLoop.send1_some p.kinds.color k3 st.sys.color.length
+        simp only [stepEffect, hb'] at hstep
+        cases b <;> cases hstep
+      | sendFg v =>
+        obtain ⟨b, hb'⟩ := VaxisModel.Lemmas.InputLoop.send1_some p.kinds.fg k4 st.sys.fg.length
+        simp only [stepEffect, hb'] at hstep
+        cases b <;> cases hstep
+      | sendBg v =>
+        obtain ⟨b, hb'⟩ := VaxisModel.Lemmas.InputLoop.send1_some p.kinds.bg k5 st.sys.bg.length
+        simp only [stepEffect, hb'] at hstep
+        cases b <;> cases hstep
+      | sendClipboard v =>
+        simp only [VaxisModel.Model.Startup.next, liftSys, VaxisModel.Model.InputLoop.next, hp, k6, beq_self_eq_true, if_true] at q2
+        cases q2
+  have hins : st.ins = startupReplies hostBg e := by
+    have := VaxisModel.Lemmas.Startup.ins_run p o ls (St.init o) st hrun
+    simpa [St.init, hin] using this
+  have hready : st.phase = .ready := by
+    cases hph : st.phase with
+    | ready => rfl
+    | done =>
+      simp only [VaxisModel.Model.Startup.next, hph, if_true] at q5
+      cases q5
+    | probe =>
+      exfalso
+      rcases hI.probe hph with ⟨ha, _⟩ | ⟨r, c, hm⟩ | hc
+      · simp at ha
+      · rw [hpend] at hm; cases hm
+      · simp only [VaxisModel.Model.Startup.next, hph, if_true] at q3
+        cases hcc : st.sys.cursorCh with
+        | nil => exact hc hcc
+        | cons v t => rw [hcc] at q3; cases q3
+    | loop =>
+      exfalso
+      have hqueue : st.sys.queue = [] := by
+        cases hqq : st.sys.queue with
+        | nil => rfl
+        | cons ev q =>
+          simp only [VaxisModel.Model.Startup.next, hph, if_true, hqq] at q4
+          split at q4 <;> cases q4
+      have hinv := VaxisModel.Lemmas.Startup.inv_run p o ls (St.init o) st (VaxisModel.Lemmas.Startup.inv_init o) hrun
+      have hda := hinv.v.hasDA (Or.inr hph) (by
+        show VaxisModel.Lemmas.Startup.seenDA st.ins = true
+        rw [hins]
+        unfold VaxisModel.Lemmas.Startup.seenDA startupReplies
+        simp only [List.any_append, List.any_cons, List.any_nil, Bool.or_false, Bool.or_eq_true]
+        exact Or.inr rfl)
+      have hnp : (VaxisModel.Lemmas.Startup.view st).np = [] := by
+        show VaxisModel.Lemmas.Startup.np st = []
+        simp [VaxisModel.Lemmas.Startup.np, hqueue, hpend, VaxisModel.Lemmas.InputEvents.posted]
+      rw [hnp] at hda
+      simp at hda
+  obtain ⟨e1, he1⟩ := run_startup hostBg e
+  exact ⟨hready, hI.noTO, hI.noDrop,
+    (emu_dialogue_caps hostBg e e1 _ he1 p o henv hct ls st hin hrun hready hI.noTO hI.noDrop).1⟩
+
 /-! ### the dialogue terminates: a complete run exists, whatever the emulator's state -/
 
 /-- One schedule: every reply is handled as it arrives, the probe receives the cursor position, the
@@ -174,5 +299,25 @@ theorem emu_dialogue_terminates (hostBg : Option (Nat × Nat × Nat)) (e : Emu) 
       obtain ⟨r, g, b⟩ := t
       simp only [and_self, if_true]
       exact ⟨_, rfl, rfl, rfl, rfl, rfl⟩
+
+/-- Parameters meeting the hypotheses of `emu_dialogue_completes`: a queue of 8, the send kinds and
+    the `chCursorPos` capacity of the current source (regenerated). -/
+def liveP : Params := { qcap := 8, kinds := Kinds.ofGen, b64 := fun _ => none }
+
+theorem liveP_ok : 7 ≤ liveP.qcap ∧ VaxisModel.Lemmas.InputLoop.Kinds.safe liveP.kinds ∧ liveP.cursorCap ≠ 0 := by
+  refine ⟨by decide, ?_, by decide⟩
+  unfold VaxisModel.Lemmas.InputLoop.Kinds.safe
+  decide
+
+/-- Non-vacuity of `emu_dialogue_completes`: the schedule of `emu_dialogue_terminates` is a time-out
+    free run over the emulator's replies that ends quiescent (here: no host attached). -/
+example (e : Emu) (hv : e.hasVx = false) :
+    ∃ st, inputsOf (scheduleOf (startupReplies none e)) = startupReplies none e ∧
+      (∀ l ∈ scheduleOf (startupReplies none e), isTimeout l = false) ∧
+      VaxisModel.Model.Startup.run liveP {} (St.init {}) (scheduleOf (startupReplies none e)) = some st ∧
+      Quiescent liveP {} st := by
+  unfold startupReplies replies
+  simp only [hv, Bool.false_eq_true, and_false, if_false]
+  exact ⟨_, rfl, by decide, rfl, rfl, rfl, rfl, rfl, rfl⟩
 
 end VaxisModel.Props.C12Startup
